@@ -6,10 +6,12 @@ PID = 'C05'
 
 
 def conc_model_part(rep):
-    """Level 2: ConcImpl.tla / ConcImpl2.tla - CombineLatest2, Zip2, TakeUntil and BufferWhen at the grain of the code under two concurrent producers.  The library emits after releasing the
+    """Level 2: ConcImpl.tla / ConcImpl2.tla / ConcImpl3.tla - CombineLatest2, Zip2, TakeUntil, BufferWhen (and SampleWhen, ThrottleWhen, SkipUntil, which hold as they are) at the grain of the code under two concurrent producers.  The library emits after releasing the
     operator's lock (or without one): TLC is EXPECTED to find runs that no arrival order explains (the counterexamples behind the known concurrent findings,
     which MultiLin.tla reports on recorded runs of the real operators); with the emission inside the critical section Explained holds."""
-    for cfgname in ['ConcImpl_combinelatest_atomic.cfg', 'ConcImpl_zip_atomic.cfg', 'ConcImpl_zip_safe.cfg', 'ConcImpl2_takeuntil_atomic.cfg', 'ConcImpl2_bufferwhen_atomic.cfg']:
+    for cfgname in ['ConcImpl_combinelatest_atomic.cfg', 'ConcImpl_zip_atomic.cfg', 'ConcImpl_zip_safe.cfg', 'ConcImpl2_takeuntil_atomic.cfg', 'ConcImpl2_bufferwhen_atomic.cfg',
+                    # ConcImpl3.tla: SampleWhen / ThrottleWhen / SkipUntil AS THE CODE IS meet the concurrent clause (real-time order respected)
+                    'ConcImpl3_samplewhen.cfg', 'ConcImpl3_throttlewhen.cfg', 'ConcImpl3_skipuntil.cfg']:
         r = vlib.run_tlc(cfgname.split('_')[0], cfgname, timeout=600, deadlock=False)
         vlib.tlc_must_pass(r, cfgname)
         rep.add_states(r)
@@ -23,6 +25,12 @@ def conc_model_part(rep):
                                                                        'the real operators are judged by MultiLin.tla on recorded runs')
         if r.violation != 'Explained':
             rep.inconclusive.append('%s was expected to violate Explained, TLC reports %s' % (cfgname, r.violation))
+    # control of ConcImpl3.tla: the refactor "clear the flag after the emission" (seeded change C05-A) is told apart by the same invariant
+    r = vlib.run_tlc('ConcImpl3', 'ConcImpl3_samplewhen_clearlate.cfg', timeout=600, deadlock=False)
+    rep.add_states(r)
+    rep.parts['tlc:ConcImpl3_samplewhen_clearlate.cfg'] = dict(violated=r.violation, note='control: a sample stored between copy and clear is lost; no real-time-respecting arrival order explains the output')
+    if r.violation != 'Explained':
+        rep.inconclusive.append('ConcImpl3_samplewhen_clearlate.cfg was expected to violate Explained, TLC reports %s' % r.violation)
 
 
 def main(argv):
